@@ -6,7 +6,7 @@ from vf.core import call, exc_desc
 from vf.lazy import ck, libx, common
 
 PROP = "C16"
-TECHNIQUE = ('history + executable model: icontract invariants on Ranking / Dataset evaluated after every public method, full structural predicate and model equality after every step of random mutation histories; almost-integer and twin names; hand-built consensuses; histories on datasets of 10 000+ cells')
+TECHNIQUE = ('history + executable model: icontract invariants on Ranking / Dataset evaluated after every public method, full structural predicate and model equality after every step of random mutation histories; almost-integer and twin names; hand-built consensuses; histories on datasets of 10 000+ cells; the caller changes the list it had given to the constructor; rankings built from one-shot iterables under the Ranking invariant')
 RULE = ("history + executable model: a dataset (D2-D7, D12 names: ints, strings, int-like strings mixed with words so that "
         "removals change the expected element type) receives a random history of 3-10 operations among remove_elements "
         "(subset / non-members / everything), remove_elements_rate_presence_lower_than (rates 0..1 and boundaries k/m), "
@@ -149,6 +149,33 @@ def check_case(case, ctx):
             elif type(res).__name__ != "EmptyDatasetException":
                 ctx.violation(f"C16/element-less-input-raises-{type(res).__name__}", f"{label}: {exc_desc(res)} instead of "
                               "the documented EmptyDatasetException", case)
+    # constructor arguments that name an element twice (buckets given as lists / tuples): refused with ValueError, or else
+    # a ranking whose views agree with its buckets
+    if gen.digest(ds0)[2] in "01234567":
+        r2 = random.Random(case["opseed"] * 31 + 7)
+        pool = [r for r in ds0 if len(r) >= 2 and any(len(b) for b in r[:-1])]
+        if pool:
+            r0 = r2.choice(pool)
+            odd = [list(b) for b in r0]
+            i = r2.choice([j for j in range(len(odd) - 1) if odd[j]])
+            how = r2.choice(["twice-in-one-bucket", "twice-in-one-bucket", "in-two-buckets"])
+            if how == "twice-in-one-bucket":
+                odd[i].insert(r2.randint(0, len(odd[i])), odd[i][0])
+            else:
+                odd[r2.randrange(i + 1, len(odd))].append(odd[i][0])
+            if r2.random() < 0.5:
+                odd = [tuple(b) for b in odd]
+            sto, ro = call(ck.Ranking, odd)
+            ctx.count("rankings_naming_an_element_twice")
+            if sto == "ok":
+                ctx.count("rankings_naming_an_element_twice_accepted")
+                if not check_ranking_obj(ctx, {**case, "argument": [list(b) for b in odd]}, -1, ro, "constructor:element-named-" + how):
+                    return
+            elif not isinstance(ro, ValueError):
+                ctx.violation(f"C16/ranking-constructor-raises-{type(ro).__name__}", f"Ranking({odd}): {exc_desc(ro)}",
+                              {**case, "argument": [list(b) for b in odd]})
+                return
+            common.drain_invariant_problems()
     model = model_normalise(ds0)
     ctx.count("histories")
     if case.get("dcls") == "xlarge":
@@ -384,6 +411,7 @@ def reach(counters, tier, info):
                             ("mutator following a mutator", "mutator_after_mutator", 500 * k),
                             ("derived constructors on an already-mutated dataset", "derived_after_mutation", 500 * k),
                             ("derived datasets mutated (the source must not notice)", "derived_dataset_mutated", 60 * k),
+                            ("Ranking constructor given a list / tuple bucket that names an element twice", "rankings_naming_an_element_twice", 200 * k),
                             ("datasets whose caller changed, afterwards, the list it had given", "callers_list_changed_after_construction", 100 * k),
                             ("invariant evaluations (icontract)", "invariant_evaluations", 50000 * k)]:
         v = counters.get(key, 0)
